@@ -265,6 +265,29 @@ func checkC13(c *Ctx, r *Report) {
 
 	// ---------------- C13.c spec independent of the engine and of generator order
 	checkSpecEngineIndependence(c, r)
+
+	// ---- C13.e no scheduling-dependent order: the analysis and generation path is sequential.
+	// Identifier allocation (import serials, edge ordinals) and every append-in-visit-order
+	// list depend on the order of execution; a goroutine makes that order a property of the run.
+	{
+		viol := ""
+		var sites []string
+		n := 0
+		for _, fn := range c.W.SSAFuncs {
+			allInstrs(fn, false, func(f *ssa.Function, _ *ssa.BasicBlock, _ int, ins ssa.Instruction) {
+				if g, ok := ins.(*ssa.Go); ok {
+					n++
+					sites = append(sites, c.W.pos(g.Pos()))
+					viol = fmt.Sprintf("%s: %s starts a goroutine: first-come allocations made on that path (SyncedProvider.GetIdForKey serials, graph edge ordinals, append order) then depend on scheduling, so two runs over the same project can emit different identifiers", c.W.pos(g.Pos()), fnShort(f))
+				}
+			})
+		}
+		if n == 0 {
+			sites = append(sites, "gleece:0")
+		}
+		o := r.add("C13.e", "sequential", "no-goroutines-in-analysis-or-generation", fmt.Sprintf("no `go` statement in the %d analysed functions", len(c.W.SSAFuncs)), []string{"gleece"}, sites, viol)
+		o.NonTrivial = true
+	}
 }
 
 func sameAlloc(a, b ssa.Value) bool {
